@@ -1,6 +1,7 @@
 package main
 
 import (
+	"time"
 	"bytes"
 	"encoding/binary"
 	"encoding/hex"
@@ -2303,3 +2304,63 @@ func genWfOnce(r *rand.Rand, id string) *Case {
 }
 
 func init() { generators["wfonce"] = genWfOnce }
+
+// genTimes (C09): timestamp and date columns (outside the Lean model: nomodel=1) written from time.Time values in
+// non-UTC zones, fetched in text and in binary format. The expected field bytes (`xrow`) are computed here,
+// independently of the library: both types carry the WALL CLOCK of the value written, whatever its zone.
+func genTimes(r *rand.Rand, id string) *Case {
+	c := baseCase(id, "times")
+	in := plainStartup("u")
+	ncols := 1 + r.Intn(3)
+	letters := make([]byte, ncols)
+	for i := range letters {
+		letters[i] = "me"[r.Intn(2)]
+	}
+	binary := r.Intn(2) == 0
+	vals := make([]string, ncols)
+	want := make([]string, ncols)
+	pgEpoch := time.Date(2000, 1, 1, 0, 0, 0, 0, time.UTC)
+	for i := range vals {
+		sec := int64(946684800 + r.Intn(1500000000)) // 2000 .. 2047
+		off := []int{0, 60, -60, 120, 330, -480, 765, -720, 840}[r.Intn(9)]
+		vals[i] = "m" + strconv.FormatInt(sec, 10) + "_" + strconv.Itoa(off+10000)
+		t := time.Unix(sec, 0).In(time.FixedZone("x", off*60))
+		wall := time.Date(t.Year(), t.Month(), t.Day(), t.Hour(), t.Minute(), t.Second(), 0, time.UTC)
+		switch {
+		case letters[i] == 'm' && !binary:
+			want[i] = hex.EncodeToString([]byte(wall.Format("2006-01-02 15:04:05")))
+		case letters[i] == 'm':
+			us := wall.Sub(pgEpoch).Microseconds()
+			b := make([]byte, 8)
+			for k := 0; k < 8; k++ {
+				b[7-k] = byte(uint64(us) >> (8 * k))
+			}
+			want[i] = hex.EncodeToString(b)
+		case !binary:
+			want[i] = hex.EncodeToString([]byte(wall.Format("2006-01-02")))
+		default:
+			day := time.Date(wall.Year(), wall.Month(), wall.Day(), 0, 0, 0, 0, time.UTC)
+			days := int32(day.Sub(pgEpoch).Hours() / 24)
+			want[i] = hex.EncodeToString(be32(uint32(days)))
+		}
+	}
+	cols := make([]string, ncols)
+	for i := range cols {
+		cols[i] = string(letters[i])
+	}
+	script := strings.Join(cols, ",") + "//r:" + strings.Join(vals, ",") + ";c:" + hxs("SELECT 1") + "/ok"
+	if binary {
+		in = append(in, msgParse("", script, nil)...)
+		in = append(in, msgBind("", "", nil, nil, []uint16{1})...)
+		in = append(in, msgExecute("", 0)...)
+		in = append(in, msgSync()...)
+	} else {
+		in = append(in, msgQuery(script)...)
+	}
+	c.In = in
+	c.Extra["nomodel"] = "1"
+	c.Extra["xrow"] = strings.Join(want, ",")
+	return c
+}
+
+func init() { generators["times"] = genTimes }
